@@ -24,6 +24,9 @@ Block Stream Header Checksum Kanzi Lossless Huffman Range Coder Burrows Wheeler`
 
 // Make returns n bytes of the given shape. The same (shape, seed, n) always gives the same bytes.
 func Make(shape string, seed int64, n int) []byte {
+	if n <= 0 {
+		return []byte{}
+	}
 	r := rand.New(rand.NewSource(seed*7919 + int64(len(shape))*104729 + 17))
 	b := make([]byte, 0, n+64)
 
